@@ -141,6 +141,7 @@ func (p *prop) runModule(c core.Case, w *core.Worker, res *core.Result, r *rand.
 	}
 
 	deferSeen := map[string]int{}
+	collectOnlyTypeCalls := 0
 	docLookupsOnForeignTwins := 0
 	type deferInfo struct{ pkg, gen, id string }
 	var registered []deferInfo
@@ -152,7 +153,13 @@ func (p *prop) runModule(c core.Case, w *core.Worker, res *core.Result, r *rand.
 		b.OnType = func(c gengo.Context, named *types.Named, inst *pipeline.Instance) error {
 			pkg := c.Package("").Pkg().Path()
 			tn := named.Obj().Name()
-			c.RenderT("// @g saw @n\nconst _ = \"@g|@n\"\n\n", snippet.Arg("g", snippet.Block(gn)), snippet.Arg("n", snippet.Block(tn)))
+			// generator "deep" is of the collect-then-render kind: GenerateType only registers callbacks, everything it
+			// renders is rendered by them (seeded change C06-m: callbacks skipped when nothing was rendered before them)
+			if gn != "deep" {
+				c.RenderT("// @g saw @n\nconst _ = \"@g|@n\"\n\n", snippet.Arg("g", snippet.Block(gn)), snippet.Arg("n", snippet.Block(tn)))
+			} else {
+				collectOnlyTypeCalls++
+			}
 			// like real generators that look at the types of fields: ask for the documentation of SAME-NAMED types of
 			// the packages this one imports (their tags differ) and of the type's own methods - looking at somebody
 			// else's declaration must not influence which of this package's types are dispatched
@@ -331,6 +338,9 @@ func (p *prop) runModule(c core.Case, w *core.Worker, res *core.Result, r *rand.
 	}
 	for _, d := range registered {
 		res.Inc("deferred_callbacks_checked")
+		if d.gen == "deep" {
+			res.Inc("deferred_callbacks_of_the_collect_only_generator")
+		}
 		if deferSeen[d.id] != 1 {
 			res.Fail("defer-once", "defer", fmt.Sprintf("deferred callback %s ran %d times", d.id, deferSeen[d.id]), nil)
 		}
